@@ -43,12 +43,12 @@ def _call(c, return_samples=True, via_object=False):
     fek, bk, th, _ = _objects(c)
     if via_object:
         # (Bycycle.fit documents a 1d array: it reads sig.ndim.) The object has a HISTORY: other settings, a first fit on the same array
-        return implutil.object_route(np.asarray(sig), fs, tuple(c['f_range']), c['center'], c['method'], bk, th, fek, return_samples)
+        return implutil.object_route(np.asarray(sig), fs, implutil.frange(c), c['center'], c['method'], bk, th, fek, return_samples)
     if c.get('reuse') and isinstance(sig, np.ndarray) and sig.flags.writeable:
-        return implutil.reuse_buffer(lambda b: implutil.quiet(compute_features, b, fs, tuple(c['f_range']), center_extrema=c['center'], burst_method=c['method'],
+        return implutil.reuse_buffer(lambda b: implutil.quiet(compute_features, b, fs, implutil.frange(c), center_extrema=c['center'], burst_method=c['method'],
                                                                burst_kwargs=bk, threshold_kwargs=th, find_extrema_kwargs=fek, return_samples=return_samples), sig)
     # (three cases in ten run inside a strict floating-point error state of the caller: np.seterr(all='raise'))
-    return (implutil.strict_env if c.get('strict') else implutil.quiet)(compute_features, sig, fs, (tuple(c['f_range']) if not c.get('npopt') else [np.float64(v) for v in c['f_range']]), center_extrema=c['center'], burst_method=c['method'],
+    return (implutil.strict_env if c.get('strict') else implutil.quiet)(compute_features, sig, fs, (implutil.frange(c) if not c.get('npopt') else [np.float64(v) for v in c['f_range']]), center_extrema=c['center'], burst_method=c['method'],
                           burst_kwargs=bk, threshold_kwargs=th, find_extrema_kwargs=fek, return_samples=return_samples)
 
 def corpus(ctx):
@@ -98,7 +98,7 @@ def evaluate(ctx, cases):
         s2 = sig if c['center'] == 'peak' else -sig
         bd = 0 if c['boundary'] is None else c['boundary']
         try:
-            pad, b = kernels.filt_sign(s2, c['fs'], tuple(c['f_range']), c['fk'], True if c['pad'] is None else c['pad'])
+            pad, b = kernels.filt_sign(s2, c['fs'], implutil.frange(c), c['fk'], True if c['pad'] is None else c['pad'])
         except Exception as e:
             pre.append(None); reqs += ['ping', 'ping']; continue
         args = '%s %d %s %d' % (proto.enc_list(s2), pad, proto.enc_bits(b), bd)
